@@ -253,11 +253,11 @@ def execF (P : Program) (cfg : Cfg) (inp : List Sym) :
 def St.init : St :=
   { pos := 0, ti := 0, tree := [], maxTok := zeroTok, memo := [], text := [], trace := [] }
 
-/-- `p.reset()`: everything except the token buffer and (under -noast) `text` is cleared.
-    The user-visible trace is not parser state; it is cleared here only because the driver
-    observes one parse at a time. -/
+/-- `p.reset()`: everything except the token buffer `tree` is cleared (its dead tail beyond
+    `tokenIndex = 0` is invisible, see C12).  The user-visible trace is not parser state; it is
+    cleared here only because the driver observes one parse at a time. -/
 def St.reset (s : St) : St :=
-  { s with pos := 0, ti := 0, maxTok := zeroTok, memo := [], trace := [] }
+  { s with pos := 0, ti := 0, maxTok := zeroTok, memo := [], text := [], trace := [] }
 
 inductive ParseResult where
   | ok (toks : List Token)           -- nil error; `p.Tokens()` after Trim
